@@ -110,6 +110,15 @@ def resolve_syntatic_sugar(a: ast.AST) -> ast.AST:
                     f"Too many arguments for dataclass {a.func.value} - {ast.unparse(node)}."
                 )
 
+            if any(isinstance(arg, ast.Starred) for arg in a.args) or any(
+                k.arg is None for k in a.keywords
+            ):
+                assert isinstance(a.func, ast.Constant)
+                raise ValueError(
+                    f"Starred arguments can not be bound to the fields of dataclass "
+                    f"{a.func.value} - {ast.unparse(node)}."
+                )
+
             # The call node is left as it was: it may be in the tree more than once.
             arg_values = list(a.args)
             arg_names = [ast.Constant(value=n) for n in sig_arg_names[: len(arg_values)]]
